@@ -4,6 +4,11 @@ Real glue: every registered data exporter (looked up in glue.config.data_exporte
 dataset / subset into a scratch directory, glue.core.data_factories.load_data reads it back, the
 canonicalised result goes to the Lean driver, which returns the Impl model's prediction and the
 Spec verdict on the implementation's own output.
+
+Round 2: every component is built under a STORAGE LAYOUT (byte order, strides, C / Fortran order,
+read-only, window of a larger buffer, unaligned, broadcast, bytes / object / wide text) chosen
+independently of its values — the model carries the tag and provably ignores it
+(Props.C19.layout_irrelevant) —, and exporters are chained (export A -> load -> export B -> load).
 """
 import gc
 import itertools
@@ -105,7 +110,7 @@ def _collect():
 # case -> glue objects
 # ------------------------------------------------------------------------------------------
 
-_DT = {"f": "f8", ("i", 16): "i2", ("i", 32): "i4", ("i", 64): "i8",
+_DT = {"f": "f8", ("i", 8): "i1", ("i", 16): "i2", ("i", 32): "i4", ("i", 64): "i8",
        ("u", 8): "u1", ("u", 16): "u2", ("u", 32): "u4", ("u", 64): "u8"}
 
 
@@ -117,18 +122,141 @@ def cell_value(c):
     return "".join(chr(x) for x in c[1:])
 
 
+# ------------------------------------------------------------------------------------------
+# storage layouts: HOW the values of a component sit in memory.  The values (which go to Lean as
+# exact rationals / code points) are the same under every layout; the model ignores the tag
+# (Props.C19.layout_irrelevant), so a layout-dependent result is a violation by definition.
+# ------------------------------------------------------------------------------------------
+
+NONNATIVE = ">" if np.little_endian else "<"
+
+# numeric and text
+LAYOUTS_COMMON = ["native", "swapped", "strided", "reversed", "fortran", "readonly", "window",
+                  "unaligned", "swapstrided", "fitslike", "bcast"]
+# text only: fixed-width bytes, object dtype holding str, over-wide items
+LAYOUTS_TEXT = ["bytes", "object", "wide"]
+LAYOUTS_NUM = LAYOUTS_COMMON
+LAYOUTS_STR = LAYOUTS_COMMON + LAYOUTS_TEXT
+LAYOUTS_ALL = LAYOUTS_COMMON + LAYOUTS_TEXT
+
+
+def _garbage(dtype):
+    """a value that is visibly wrong if the gaps / padding of a view leak into a file"""
+    k = np.dtype(dtype).kind
+    if k == "f":
+        return 77.5
+    if k in "iu":
+        return 77
+    if k == "S":
+        return b"#"
+    return "#"
+
+
+def _swap(a):
+    """same values, non-native byte order (a real conversion, not a relabelling)"""
+    if a.dtype.kind == "O" or a.dtype.itemsize == 1 or a.dtype.kind == "S":
+        return a
+    return a.astype(a.dtype.newbyteorder(NONNATIVE))
+
+
+def _strided(a):
+    """every second element (along the last axis) of an array twice as large"""
+    shape = a.shape[:-1] + (2 * a.shape[-1] + 1,)
+    big = np.full(shape, _garbage(a.dtype), dtype=a.dtype)
+    v = big[..., 1::2]
+    v[...] = a
+    return v
+
+
+def store(a, layout):
+    """The array `a` (C-contiguous, native) re-stored under `layout`; always equal to `a` element-wise."""
+    nd = a.ndim
+    if layout in (None, "native"):
+        out = a
+    elif layout == "swapped":
+        out = _swap(a)
+    elif layout == "strided":
+        out = _strided(a)
+    elif layout == "swapstrided":
+        out = _strided(_swap(a))
+    elif layout == "reversed":   # negative strides on every axis
+        rev = (slice(None, None, -1),) * nd
+        out = np.ascontiguousarray(a[rev])[rev]
+    elif layout == "fortran":
+        if nd >= 2:
+            out = np.asfortranarray(a)
+        else:                    # 1-d: a column of a C-ordered 2-d array
+            big = np.full(a.shape + (3,), _garbage(a.dtype), dtype=a.dtype)
+            big[:, 1] = a
+            out = big[:, 1]
+    elif layout == "readonly":
+        out = a.copy()
+        out.flags.writeable = False
+    elif layout == "window":     # contiguous window into a larger buffer (offset, base is not None)
+        n = a.size
+        big = np.full(n + 5, _garbage(a.dtype), dtype=a.dtype)
+        big[3:3 + n] = a.ravel()
+        out = big[3:3 + n].reshape(a.shape)
+    elif layout == "unaligned":
+        if a.dtype.kind == "O" or a.dtype.itemsize == 1:
+            out = a
+        else:
+            buf = np.zeros(a.nbytes + 1, dtype=np.uint8)
+            out = buf[1:].view(a.dtype).reshape(a.shape)
+            out[...] = a
+    elif layout == "fitslike":   # what a memory-mapped FITS image holds: non-native, read-only
+        out = _swap(a).copy()
+        if nd >= 2:
+            out = np.asfortranarray(out)
+        out.flags.writeable = False
+    elif layout == "bcast":      # a broadcast (stride 0, read-only) view when the values allow it
+        flat = a.ravel()
+        if a.dtype.kind != "O" and flat.size and all(x == flat[0] or (x != x and flat[0] != flat[0]) for x in flat.tolist()):
+            out = np.broadcast_to(flat[:1].reshape((1,) * nd), a.shape)
+        else:
+            out = a.copy()
+            out.flags.writeable = False
+    elif layout == "bytes":      # fixed-width bytes 'S' (ASCII text only)
+        if a.dtype.kind == "U" and all(ord(ch) < 128 for x in a.ravel().tolist() for ch in x):
+            out = np.char.encode(a, "ascii") if a.size else a.astype("S1")
+        else:
+            out = a
+    elif layout == "object":
+        if a.dtype.kind == "U":
+            out = np.empty(a.shape, dtype=object)
+            out.ravel()[:] = [str(x) for x in a.ravel().tolist()] if a.size else []
+        else:
+            out = a
+    elif layout == "wide":
+        out = a.astype("U%d" % (a.dtype.itemsize // 4 + 5)) if a.dtype.kind == "U" else a
+    else:
+        raise ValueError("unknown layout %r" % (layout,))
+    return out
+
+
+def norm_col(col):
+    """[name, kind, derived, cells, dtype-hint or None, layout] (older cases have 4 or 5 entries)"""
+    col = list(col)
+    while len(col) < 5:
+        col.append(None)
+    if len(col) < 6:
+        col.append("native")
+    return col
+
+
 def column_array(col, shape):
-    name, kind, derived, cells = col[:4]
-    hint = col[4] if len(col) > 4 else None
+    name, kind, derived, cells, hint, layout = norm_col(col)
     vals = [cell_value(c) for c in cells]
     if kind == "s":
         arr = np.array([str(v) for v in vals], dtype="U") if vals else np.zeros(0, dtype="U1")
-        return arr.reshape(shape)
-    if kind == "f":
-        dt = hint or "f8"
-        return np.array([float(v) for v in vals], dtype=dt).reshape(shape)
-    dt = _DT[tuple(kind)]
-    return np.array([int(v) for v in vals], dtype=dt).reshape(shape)
+    elif kind == "f":
+        arr = np.array([float(v) for v in vals], dtype=hint or "f8")
+    else:
+        arr = np.array([int(v) for v in vals], dtype=_DT[tuple(kind)])
+    arr = arr.reshape(shape)
+    out = store(arr, layout)
+    assert out.shape == arr.shape
+    return out
 
 
 def build_data(shape, cols):
@@ -190,13 +318,13 @@ def as_list(r):
     return r if isinstance(r, list) else [r]
 
 
-def export_case(tmp, fmt, shape, cols, sel, comps, fname="f"):
-    d, cids = build_data(shape, cols)
+def export_data(tmp, fmt, d, cids, sel, comps, fname="f"):
+    """export the Data `d` (or the subset `sel` of it) with fmt's registered exporter"""
     obj = d
     keep = [d]
     if sel is not None:
         sub = d.new_subset()
-        sub.subset_state = MaskSubsetState(np.array(sel, dtype=bool).reshape(tuple(shape)), d.pixel_component_ids)
+        sub.subset_state = MaskSubsetState(np.array(sel, dtype=bool).reshape(d.shape), d.pixel_component_ids)
         obj = sub
         keep.append(sub)
     path = os.path.join(tmp, "%s.%s" % (fname, FORMATS[fmt][1]))
@@ -208,6 +336,23 @@ def export_case(tmp, fmt, shape, cols, sel, comps, fname="f"):
     return path, keep
 
 
+def export_case(tmp, fmt, shape, cols, sel, comps, fname="f"):
+    d, cids = build_data(shape, cols)
+    return export_data(tmp, fmt, d, cids, sel, comps, fname)
+
+
+def load_back(fmt, path):
+    """load_data on an exported file: list of Data, or the atom of a loud, modelled failure"""
+    try:
+        fac = factory_for(fmt)
+        return as_list(load_data(path) if fac is None else load_data(path, factory=fac))
+    except (KeyError, IndexError) as e:
+        # astropy cannot read back an empty LaTeX table
+        if fmt == "latex" and (isinstance(e, IndexError) or "Don't know how to open" in str(e)):
+            return "no-reader"
+        raise
+
+
 def round_trip(fmt, shape, cols, sel, comps):
     tmp = tempfile.mkdtemp(prefix="c19_")
     try:
@@ -217,17 +362,55 @@ def round_trip(fmt, shape, cols, sel, comps):
                 path, keep = export_case(tmp, fmt, shape, cols, sel, comps)
             except UnicodeEncodeError:
                 return "unicode-error"
-            try:
-                fac = factory_for(fmt)
-                loaded = as_list(load_data(path) if fac is None else load_data(path, factory=fac))
-            except (KeyError, IndexError) as e:
-                # astropy cannot read back an empty LaTeX table
-                if fmt == "latex" and (isinstance(e, IndexError) or "Don't know how to open" in str(e)):
-                    return "no-reader"
-                raise
+            loaded = load_back(fmt, path)
+            if isinstance(loaded, str):
+                return loaded
             out = ["ok", [canon_data(x) for x in loaded]]
             del keep
             return out
+    finally:
+        shutil.rmtree(tmp, ignore_errors=True)
+
+
+def kind_of(arr, comp):
+    """the model's Kind of a loaded component: what the next exporter is handed"""
+    if isinstance(comp, CategoricalComponent):
+        return "s"
+    k = arr.dtype.kind
+    if k == "f":
+        return "f"
+    if k in "iu":
+        return [k, arr.dtype.itemsize * 8]
+    return "other-" + k
+
+
+def chain_trip(fmt_a, shape, cols, fmt_b, sel, comps):
+    """export with A -> load_data -> export the LOADED dataset (or a subset of it) with B -> load_data.
+    The second exporter is handed whatever storage the first reader produced (big-endian FITS
+    arrays, memory-mapped read-only HDF5 arrays, object / bytes text columns ...)."""
+    tmp = tempfile.mkdtemp(prefix="c19_")
+    try:
+        with warnings.catch_warnings():
+            warnings.simplefilter("ignore")
+            try:
+                path, keep = export_case(tmp, fmt_a, shape, cols, None, None)
+            except UnicodeEncodeError:
+                return ["chain", "unicode-error", "N", "N"]
+            loaded = load_back(fmt_a, path)
+            if isinstance(loaded, str):
+                return ["chain", loaded, "N", "N"]
+            hop1 = ["ok", [canon_data(x) for x in loaded]]
+            d1 = loaded[0]
+            cids1 = list(d1.main_components)
+            kinds1 = [kind_of(np.asarray(d1[c]), d1.get_component(c)) for c in cids1]
+            try:
+                path2, keep2 = export_data(tmp, fmt_b, d1, cids1, sel, comps, fname="g")
+            except UnicodeEncodeError:
+                return ["chain", hop1, kinds1, "unicode-error"]
+            loaded2 = load_back(fmt_b, path2)
+            hop2 = loaded2 if isinstance(loaded2, str) else ["ok", [canon_data(x) for x in loaded2]]
+            del keep, keep2, loaded, loaded2
+            return ["chain", hop1, kinds1, hop2]
     finally:
         shutil.rmtree(tmp, ignore_errors=True)
 
@@ -240,6 +423,12 @@ NAMES = ["zeta", "a", "m", "Flux", "x1", "col_2", "b", "K", "ra", "DEC_deg", "w"
 
 FLOATS = [NAN, Q(0), Q(1.5), Q(-2.25), Q(3), Q(4), Q(0.5), Q(-1), Q(1024.125), Q(2.0 ** -10), Q(1000), Q(2.0 ** 40 + 0.5)]
 FLOATS32 = [NAN, Q(0), Q(1.5), Q(-2.25), Q(3), Q(0.5), Q(-1), Q(1024.125)]
+FLOATS16 = [NAN, Q(0), Q(1.5), Q(-2.25), Q(3), Q(0.5), Q(-1), Q(1024), Q(0.125), Q(48.5)]
+FLOAT_POOL = {None: FLOATS, "f8": FLOATS, "f4": FLOATS32, "f2": FLOATS16}
+# formats that can hold the narrow types (float16: VOTable / gridded FITS refuse loudly; int8: no FITS /
+# VOTable type — astropy writes a logical column, raises, or BZERO + BLANK cannot be read back)
+F2_FORMATS = ("csv", "ipac", "latex", "fitstab", "hdf5")
+I8_FORMATS = ("csv", "ipac", "latex", "hdf5")
 
 
 def ints_for(kind, rng, risky=False, fmt=None):
@@ -248,7 +437,7 @@ def ints_for(kind, rng, risky=False, fmt=None):
         # values that the FITS BLANK -> float64 conversion keeps exact (finding F6 otherwise)
         return [Q(v) for v in ([0, 1, -1, 2, -3, 5, 7, 100, 2 ** 53, -(2 ** 53), 2 ** 40] if k == "i" else [0, 1, 2, 3, 5, 7, 100, 2 ** 53])]
     if k == "i":
-        base = [0, 1, -1, 2, -3, 5, 7, 100, 2 ** (b - 1) - 1, -(2 ** (b - 1)) + 1]
+        base = [0, 1, -1, 2, -3, 5, 7, 100 if b > 8 else 77, 2 ** (b - 1) - 1, -(2 ** (b - 1)) + 1]
         if b == 64:
             base += [2 ** 53, -(2 ** 53), 2 ** 40]
             if risky:
@@ -287,6 +476,8 @@ KINDS_TABLE = ["f", "s", ["i", 64], ["i", 32], ["i", 16], ["u", 8], ["u", 16], [
 
 def kinds_for(fmt):
     ks = ["f", "f", ["i", 64], ["i", 32], ["i", 16], ["u", 8]]
+    if fmt in I8_FORMATS:
+        ks += [["i", 8]]
     if fmt != "votable":
         ks += [["u", 16], ["u", 32], ["u", 64]]
     if fmt != "fitsimg":
@@ -296,16 +487,34 @@ def kinds_for(fmt):
     return ks
 
 
-def make_col(rng, fmt, name, kind, n, derived=False, domain_only=True, risky=False):
-    hint = None
+def layouts_for(kind):
+    return LAYOUTS_STR if kind == "s" else LAYOUTS_NUM
+
+
+def random_layout(rng, kind):
+    """half of the components are plain arrays, the others get one of the non-trivial layouts"""
+    if rng.random() < 0.5:
+        return "native"
+    return rng.choice(layouts_for(kind)[1:])
+
+
+def make_col(rng, fmt, name, kind, n, derived=False, domain_only=True, risky=False, layout="native", hint=None,
+             fmt2=None):
+    """[name, kind, derived, cells, dtype hint, layout]; `fmt2`: a second format the values must also suit"""
+    fmts = [fmt] + ([fmt2] if fmt2 else [])
     if kind == "f":
-        if rng.random() < 0.25:
-            hint = "f4"
-            cells = [rng.choice(FLOATS32) for _ in range(n)]
-        else:
-            cells = [rng.choice(FLOATS) for _ in range(n)]
+        if hint is None:
+            r = rng.random()
+            if r < 0.25:
+                hint = "f4"
+            elif r < 0.35 and all(f in F2_FORMATS for f in fmts):
+                hint = "f2"
+        cells = [rng.choice(FLOAT_POOL[hint]) for _ in range(n)]
     elif kind == "s":
         pool = text_pool(fmt, domain_only)
+        if fmt2:
+            p2 = text_pool(fmt2, domain_only)
+            pool = [t for t in pool if t in p2]
         mode = rng.random()
         if not domain_only and mode < 0.25:
             pool = TEXT_NUMERIC + ([""] if fmt == "csv" else [])
@@ -313,23 +522,25 @@ def make_col(rng, fmt, name, kind, n, derived=False, domain_only=True, risky=Fal
             pool = TEXT_NUMERIC + TEXT_SIMPLE[:3] + ([""] if fmt == "csv" else [])
         cells = [S(rng.choice(pool)) for _ in range(n)]
     else:
-        pool = ints_for(tuple(kind), rng, risky, fmt)
+        pool = ints_for(tuple(kind), rng, risky, "fitsimg" if "fitsimg" in fmts else fmt)
         cells = [rng.choice(pool) for _ in range(n)]
-    col = [N(name), kind, derived, cells]
-    if hint:
-        col.append(hint)
-    return col
+    return [N(name), kind, derived, cells, hint, layout]
 
 
-def strip_hints(cols):
-    return [c[:4] for c in cols]
+def lean_cols(cols):
+    """what the model sees: values and the layout tag (the dtype hint only picks the value pool)"""
+    out = []
+    for c in cols:
+        c = norm_col(c)
+        out.append(c[:4] + [c[5]])
+    return out
 
 
 def masks_small(n):
     return [list(m) for m in itertools.product([False, True], repeat=n)]
 
 
-def random_case(rng, fmt, image, domain_only, risky=False):
+def random_case(rng, fmt, image, domain_only, risky=False, layouts=True):
     if image:
         shape = rng.choice([[2, 2], [2, 3], [1, 3], [3, 1], [2, 1, 2], [4], [2, 2, 2]])
     else:
@@ -344,7 +555,8 @@ def random_case(rng, fmt, image, domain_only, risky=False):
         if image and kind == "s" and fmt == "hdf5" and rng.random() < 0.5:
             kind = "f"
         derived = have_main and kind != "s" and rng.random() < 0.25
-        cols.append(make_col(rng, fmt, name, kind, n, derived, domain_only, risky))
+        cols.append(make_col(rng, fmt, name, kind, n, derived, domain_only, risky,
+                             layout=random_layout(rng, kind) if layouts else "native"))
         if not derived:
             have_main = True
     if fmt == "fitsimg" and all(c[1] == "s" for c in cols):
@@ -369,13 +581,19 @@ def random_case(rng, fmt, image, domain_only, risky=False):
     return [fmt, shape, cols, sel, comps]
 
 
+def layout_sig(cols):
+    """the one non-native layout of a (shrunk) case, 'native', or 'mixed'"""
+    ls = sorted(set(norm_col(c)[5] for c in cols) - {"native"})
+    return "native" if not ls else ls[0] if len(ls) == 1 else "mixed"
+
+
 class RoundTrip(Family):
     batch = 40
     case_timeout = 60.0
 
     def line(self, case, pyout):
         fmt, shape, cols, sel, comps = case[:5]
-        return sx([self.name, [fmt, shape, strip_hints(cols), sel, comps], pyout])
+        return sx([self.name, [fmt, shape, lean_cols(cols), sel, comps], pyout])
 
     def run_impl(self, case):
         fmt, shape, cols, sel, comps = case[:5]
@@ -391,14 +609,21 @@ class RoundTrip(Family):
         return case[3] is not None and any(case[3]) and not all(case[3])
 
     def signature(self, case, po, res):
-        return {"br": res.get("br"), "fmt": case[0]}
+        return {"br": res.get("br"), "fmt": case[0], "layout": layout_sig(case[2])}
 
     def describe(self, case):
         return {"fmt": case[0], "shape": case[1], "ncols": len(case[2]), "kinds": [c[1] for c in case[2]],
-                "sel": case[3], "comps": case[4]}
+                "layouts": [norm_col(c)[5] for c in case[2]], "sel": case[3], "comps": case[4]}
 
     def shrink(self, case):
         fmt, shape, cols, sel, comps = case[:5]
+        cols = [norm_col(c) for c in cols]
+        # storage first: if the failure survives plain arrays it is about the values, not the layout
+        if any(c[5] != "native" for c in cols):
+            yield [fmt, shape, [c[:5] + ["native"] for c in cols], sel, comps]
+            for ci, c in enumerate(cols):
+                if c[5] != "native":
+                    yield [fmt, shape, cols[:ci] + [c[:5] + ["native"]] + cols[ci + 1:], sel, comps]
         if comps is not None:
             yield [fmt, shape, cols, sel, None]
         if sel is not None and len(shape) == 1 and shape[0] > 1:
@@ -461,12 +686,12 @@ class Tab(RoundTrip):
                         for sel in (None, [True, False, True], [False, False, False]):
                             yield [fmt, [3], cols, sel, comps]
         # --- seeded random: in the quantifier
-        nr = 2100 if tier == "quick" else 12000
+        nr = 1680 if tier == "quick" else 12000
         for i in range(nr):
             fmt = TABLE_FORMATS[i % len(TABLE_FORMATS)]
             yield random_case(rng, fmt, False, True)
         # --- seeded random: outside the quantifier (numeric-looking text, empty text, non-ASCII) — model fidelity
-        nr = 1000 if tier == "quick" else 6000
+        nr = 800 if tier == "quick" else 6000
         for i in range(nr):
             fmt = ("csv", "votable", "fitstab", "hdf5")[i % 4]
             yield random_case(rng, fmt, False, False)
@@ -499,6 +724,216 @@ class Img(RoundTrip):
         return case[3] is not None and any(case[3]) and not all(case[3])
 
 
+def _const(cell, n):
+    return [cell] * n
+
+
+def layout_table(fmt, n, which, layout, rot=None):
+    """The fixed small table / image of the layout core: every dtype the format can hold, all
+    components stored under `layout` (text-only layouts: numeric components rotate through the
+    common ones); `rot` = k gives every component a different layout instead."""
+    def vals(xs):
+        return [xs[i % len(xs)] for i in range(n)]
+    if which == 0:
+        cols = [["a", "f", vals([Q(1.5), NAN, Q(-2.25), Q(2.0 ** 40 + 0.5)]), "f8"],
+                ["b", ["i", 32], vals([Q(1), Q(-2), Q(40000), Q(-2 ** 31 + 1)]), None],
+                ["s", "s", vals([S("ab"), S("Qx"), S("abc_d"), S("e5")]), None],
+                ["i", ["i", 16], vals([Q(1), Q(-2), Q(300), Q(32767)]), None],
+                ["u", ["u", 16] if fmt != "votable" else ["u", 8], vals([Q(1), Q(2), Q(255), Q(7)]), None]]
+    else:
+        cols = [["h", "f", vals([Q(1.5), Q(3), Q(-2.25), Q(1024.125)]), "f4"],
+                ["j", ["i", 64], vals([Q(1), Q(-2), Q(2 ** 40), Q(2 ** 53)]), None],
+                ["c", "f", _const(Q(7), n), "f8"],
+                ["t", "s", _const(S("Qx"), n), None],
+                ["w", ["u", 8], vals([Q(1), Q(2), Q(255), Q(0)]), None]]
+        if fmt in F2_FORMATS:
+            cols.append(["k", "f", vals([Q(1.5), NAN, Q(0.125), Q(1024)]), "f2"])
+        if fmt in I8_FORMATS:
+            cols.append(["g", ["i", 8], vals([Q(1), Q(-2), Q(127), Q(-127)]), None])
+        if fmt != "votable":
+            cols.append(["v", ["u", 32], vals([Q(1), Q(2), Q(2 ** 32 - 1), Q(7)]), None])
+            cols.append(["x", ["u", 64], vals([Q(1), Q(2), Q(2 ** 53), Q(7)]), None])
+    out = []
+    for i, (name, kind, cells, hint) in enumerate(cols):
+        if kind == "s" and fmt == "fitsimg":
+            continue
+        pool = layouts_for(kind)
+        if rot is not None:
+            lay = pool[(i * 3 + rot) % len(pool)]
+        elif layout in pool:
+            lay = layout
+        else:
+            lay = LAYOUTS_COMMON[1 + (i + LAYOUTS_TEXT.index(layout)) % (len(LAYOUTS_COMMON) - 1)]
+        out.append([N(name), kind, False, cells, hint, lay])
+    return out
+
+
+class Lay(RoundTrip):
+    """Exhaustive storage-layout core: every exporter x every layout x one small table / image with
+    every dtype the format holds x whole / proper / empty (/ full) subset.  Seed-independent."""
+    name = "lay"
+    budget_share = 2.0
+    exhaustive = True
+
+    def cases(self, tier, rng):
+        proper3 = [True, False, True]
+        for fmt in TABLE_FORMATS:
+            lays = LAYOUTS_COMMON if fmt == "fitsimg" else LAYOUTS_ALL
+            for which in (0, 1):
+                for lay in lays:
+                    cols = layout_table(fmt, 3, which, lay)
+                    for sel in (None, proper3, [False] * 3):
+                        yield [fmt, [3], cols, sel, None]
+                    yield [fmt, [3], cols, proper3, [1, 0]]
+                for rot in range(4):
+                    cols = layout_table(fmt, 3, which, None, rot)
+                    for sel in (None, proper3, [False] * 3):
+                        yield [fmt, [3], cols, sel, None]
+        proper6 = [True, False, True, False, False, True]
+        for fmt in IMAGE_FORMATS:
+            lays = LAYOUTS_COMMON if fmt == "fitsimg" else LAYOUTS_ALL
+            for which in (0, 1):
+                for lay in lays:
+                    cols = layout_table(fmt, 6, which, lay)
+                    for sel in (None, proper6, [False] * 6, [True] * 6):
+                        yield [fmt, [2, 3], cols, sel, None]
+                    yield [fmt, [3, 1, 2], cols, proper6, None]
+                    yield [fmt, [3, 1, 2], cols, None, [0, 1]]
+                for rot in range(4):
+                    cols = layout_table(fmt, 6, which, None, rot)
+                    for sel in (None, proper6):
+                        yield [fmt, [3, 2], cols, sel, None]
+
+
+def both_kinds(fa, fb):
+    kb = kinds_for(fb)
+    return [k for k in kinds_for(fa) if k in kb]
+
+
+def chain_case(rng, fa, fb, image):
+    if image:
+        shape = rng.choice([[2, 2], [2, 3], [3, 1], [2, 1, 2]])
+    else:
+        shape = [rng.choice([1, 2, 3, 3, 4, 5])]
+    n = int(np.prod(shape))
+    ncol = rng.choice([1, 2, 3, 3, 4])
+    names = rng.sample(NAMES, ncol)
+    kinds = both_kinds(fa, fb)
+    cols = []
+    for i, name in enumerate(names):
+        kind = rng.choice(kinds)
+        if fa == "fitsimg" and i == 0 and kind == "s":
+            kind = "f"
+        cols.append(make_col(rng, fa, name, kind, n, False, True, layout=random_layout(rng, kind), fmt2=fb))
+    nd1 = 1 if fa == "fitsimg" else ncol          # components of the dataset loaded at hop 1
+    kinds1 = [c[1] for c in cols][:nd1]
+    if fb == "fitsimg" and all(k == "s" for k in kinds1):
+        cols[0] = make_col(rng, fa, names[0], "f", n, False, True, layout=random_layout(rng, "f"), fmt2=fb)
+        kinds1[0] = "f"
+    r = rng.random()
+    sel = None if r < 0.3 else [False] * n if r < 0.4 else [True] * n if r < 0.5 else [rng.random() < 0.5 for _ in range(n)]
+    comps = None
+    if rng.random() < 0.35:
+        comps = rng.sample(range(nd1), rng.randint(1, nd1))
+        if fb == "fitsimg" and all(kinds1[i] == "s" for i in comps):
+            comps = None
+    return [fa, shape, cols, fb, sel, comps]
+
+
+class Chain(Family):
+    """export with A -> load_data -> export the loaded dataset / a subset of it with B -> load_data.
+    Every ordered pair of exporters; the second exporter is handed the storage the first reader
+    produced (big-endian FITS columns and images, read-only memory-mapped HDF5 arrays, bytes text)."""
+    name = "chain"
+    batch = 20
+    budget_share = 2.5
+    case_timeout = 60.0
+
+    def cases(self, tier, rng):
+        proper3 = [True, False, True]
+        k = 0
+        for fa in TABLE_FORMATS:
+            for fb in TABLE_FORMATS:
+                kinds = both_kinds(fa, fb)
+                for which in (0, 1):
+                    k += 1
+                    cols = [c for c in layout_table(fa, 3, which, None, k % 7)
+                            if c[1] in kinds and (c[4] != "f2" or fb in F2_FORMATS)]
+                    if fb == "fitsimg":   # hop 2 with BLANK: values the int -> float64 conversion keeps
+                        cols = [c for c in cols if c[1] != ["u", 64]]
+                    if fa == "fitsimg":
+                        cols = [c for c in cols if c[1] != "s"]
+                    for sel in (None, proper3, [False] * 3):
+                        yield [fa, [3], cols, fb, sel, None]
+                    if which == 0:
+                        yield [fa, [3], cols, fb, proper3, [0] if fa == "fitsimg" else [1, 0]]
+        proper4 = [True, False, False, True]
+        for fa in IMAGE_FORMATS:
+            for fb in IMAGE_FORMATS:
+                for which in (0, 1):
+                    k += 1
+                    cols = [c for c in layout_table(fa, 4, which, None, k % 7)
+                            if c[1] != "s" and c[4] != "f2" and c[1] != ["i", 8] and c[1] != ["u", 64]]
+                    for sel in (None, proper4, [False] * 4, [True] * 4):
+                        yield [fa, [2, 2], cols, fb, sel, None]
+        nr = 600 if tier == "quick" else 5000
+        for i in range(nr):
+            if i % 5 == 4:
+                fa, fb = rng.choice(IMAGE_FORMATS), rng.choice(IMAGE_FORMATS)
+                yield chain_case(rng, fa, fb, True)
+            else:
+                fa, fb = rng.choice(TABLE_FORMATS), rng.choice(TABLE_FORMATS)
+                yield chain_case(rng, fa, fb, False)
+
+    def line(self, case, pyout):
+        fa, shape, cols, fb, sel, comps = case
+        return sx([self.name, [fa, shape, lean_cols(cols), fb, sel, comps], pyout])
+
+    def run_impl(self, case):
+        fa, shape, cols, fb, sel, comps = case
+        return chain_trip(fa, shape, cols, fb, sel, comps)
+
+    def setup(self):
+        _freeze()
+
+    def reset(self):
+        _collect()
+
+    def nontrivial(self, case, po):
+        return case[4] is not None and any(case[4]) and not all(case[4])
+
+    def signature(self, case, po, res):
+        return {"br": res.get("br"), "fmt": case[3], "fmtA": case[0], "layout": layout_sig(case[2])}
+
+    def describe(self, case):
+        return {"fmtA": case[0], "fmtB": case[3], "shape": case[1], "kinds": [c[1] for c in case[2]],
+                "layouts": [norm_col(c)[5] for c in case[2]], "sel": case[4], "comps": case[5]}
+
+    def shrink(self, case):
+        fa, shape, cols, fb, sel, comps = case
+        cols = [norm_col(c) for c in cols]
+        if any(c[5] != "native" for c in cols):
+            yield [fa, shape, [c[:5] + ["native"] for c in cols], fb, sel, comps]
+            for ci, c in enumerate(cols):
+                if c[5] != "native":
+                    yield [fa, shape, cols[:ci] + [c[:5] + ["native"]] + cols[ci + 1:], fb, sel, comps]
+        if comps is not None:
+            yield [fa, shape, cols, fb, sel, None]
+        if sel is not None:
+            yield [fa, shape, cols, fb, None, comps]
+        if len(cols) > 1 and comps is None:
+            for drop in range(len(cols)):
+                rest = cols[:drop] + cols[drop + 1:]
+                if "fitsimg" in (fa, fb) and (rest[0][1] == "s" or all(c[1] == "s" for c in rest)):
+                    continue
+                yield [fa, shape, rest, fb, sel, None]
+        if len(shape) == 1 and shape[0] > 1:
+            n = shape[0]
+            for drop in range(n):
+                yield [fa, [n - 1], [c[:3] + [c[3][:drop] + c[3][drop + 1:]] + c[4:] for c in cols], fb,
+                       None if sel is None else sel[:drop] + sel[drop + 1:], comps]
+
+
 class Sess(Family):
     """Session saved by reference (include_data=False): the restored session re-reads the files."""
     name = "sess"
@@ -513,17 +948,14 @@ class Sess(Family):
             image = fmt in IMAGE_FORMATS and rng.random() < 0.5
             fmt_, shape, cols, sel, comps = random_case(rng, fmt, image, True)
             n = int(np.prod(shape))
-            cols2 = [make_col(rng, fmt, "".join(chr(x) for x in c[0]), c[1], n, c[2], True) for c in cols]
-            # same dtype hints, otherwise the re-exported file would have another dtype (harmless, but keep it equal)
-            cols2 = [c2[:4] + c1[4:] if c1[1] == "f" else c2 for c1, c2 in zip(cols, cols2)]
-            for c1, c2 in zip(cols, cols2):
-                if len(c1) > 4:  # float32 hint: take values from the float32-exact pool
-                    c2[3] = [rng.choice(FLOATS32) for _ in range(n)]
+            # same names / kinds / dtypes / layouts, new values
+            cols2 = [make_col(rng, fmt, "".join(chr(x) for x in c[0]), c[1], n, c[2], True, layout=c[5],
+                              hint=c[4] or ("f8" if c[1] == "f" else None)) for c in cols]
             yield [fmt, shape, cols, sel, comps, cols2]
 
     def line(self, case, pyout):
         fmt, shape, cols, sel, comps, cols2 = case
-        return sx([self.name, [fmt, shape, strip_hints(cols), sel, comps, strip_hints(cols2)], pyout])
+        return sx([self.name, [fmt, shape, lean_cols(cols), sel, comps, lean_cols(cols2)], pyout])
 
     def setup(self):
         _freeze()
@@ -568,13 +1000,16 @@ class Sess(Family):
         return True
 
     def signature(self, case, po, res):
-        return {"br": res.get("br"), "fmt": case[0]}
+        return {"br": res.get("br"), "fmt": case[0], "layout": layout_sig(case[2])}
 
     def describe(self, case):
         return {"fmt": case[0], "shape": case[1], "kinds": [c[1] for c in case[2]], "sel": case[3], "comps": case[4]}
 
     def shrink(self, case):
         fmt, shape, cols, sel, comps, cols2 = case
+        if any(norm_col(c)[5] != "native" for c in cols + cols2):
+            yield [fmt, shape, [norm_col(c)[:5] + ["native"] for c in cols], sel, comps,
+                   [norm_col(c)[:5] + ["native"] for c in cols2]]
         if comps is not None:
             yield [fmt, shape, cols, sel, None, cols2]
         if sel is not None:
@@ -630,8 +1065,8 @@ class ParseNum(Family):
 PROP = Property(
     id="C19",
     title="Exported data files load back to the same table or image",
-    theorems=["C19.export_import_channel", "C19.channels_honour_contract", "C19.export_import_table", "C19.export_import_fitsImage_partial", "C19.subset_rows_exact", "C19.export_order", "C19.export_order_filter_is_a_set", "C19.image_mask_fill", "C19.autotyped_stable", "C19.autotyped_flips_iff", "C19.autotyped_numeric_text_flips", "C19.fitsImage_blank_witness", "C19.fitsImage_int64_witness", "C19.autotyped_flip_witness", "C19.ascii_empty_text_witness", "C19.hdf5_zero_fill_ambiguous"],
-    families=[Registry(), ParseNum(), Tab(), Img(), Sess()],
+    theorems=["C19.export_import_channel", "C19.channels_honour_contract", "C19.export_import_table", "C19.export_import_fitsImage_partial", "C19.subset_rows_exact", "C19.export_order", "C19.export_order_filter_is_a_set", "C19.image_mask_fill", "C19.autotyped_stable", "C19.autotyped_flips_iff", "C19.autotyped_numeric_text_flips", "C19.fitsImage_blank_witness", "C19.fitsImage_int64_witness", "C19.autotyped_flip_witness", "C19.ascii_empty_text_witness", "C19.hdf5_zero_fill_ambiguous", "C19.layout_irrelevant", "C19.relayout_values", "C19.export_import_any_layout", "C19.export_import_chain"],
+    families=[Registry(), ParseNum(), Lay(), Tab(), Img(), Chain(), Sess()],
     trusted_base=["astropy (io.ascii, io.fits, io.votable, table), h5py, pandas.to_numeric, numpy: exercised, not modelled; "
                   "each format is a channel with a stated contract (Model/Export.lean: idealRead / asciiRead)"],
     assumptions=["codec contracts: a written column comes back under nameRepr with the same values (FITS BLANK -> NaN as float64; "
